@@ -55,7 +55,8 @@ Verdict(ev) ==
     IF ev.ret # "ok" THEN CrashVerdict(ev, ev.text)
     ELSE IF ~ev.ok THEN "bad:parse-drift"
     ELSE IF [st |-> "Done", cfg |-> ev.cfg] = Parse(ev.text) THEN "ok"             \* (the second transcription is
-    ELSE IF [st |-> "Done", cfg |-> ev.cfg] = Pinned!Parse(ev.text) THEN "ok"      \*  evaluated only when needed)
+    ELSE IF [st |-> "Done", cfg |-> ev.cfg] = Current!Parse(ev.text) THEN "ok"     \*  evaluated only when needed; Current = the
+    ELSE IF [st |-> "Done", cfg |-> ev.cfg] = Pinned!Parse(ev.text) THEN "ok"      \*  tree with the three committed repairs)
     ELSE "bad:parse-drift"
   ELSE IF ev.e = "RoundTrip" THEN
     IF ev.ret # "ok" THEN CrashVerdict(ev, ev.text)
@@ -66,6 +67,7 @@ Verdict(ev) ==
                THEN "kf:C39-" \o ClassOf(ev.cfg1)
                ELSE "bad:roundtrip-" \o ClassOf(ev.cfg1))
     ELSE IF ev.ptoks = PrintCfg(ev.cfg1) THEN "ok"
+    ELSE IF ev.ptoks = Current!PrintCfg(ev.cfg1) THEN "ok"
     ELSE IF ev.ptoks = Pinned!PrintCfg(ev.cfg1) THEN "ok"
     ELSE "bad:print-drift"
   ELSE
